@@ -11,6 +11,8 @@ import numqi.qec._internal as QI
 from symnp import ir, scalars as S, arrays as A, facade
 from symnp.scalars import SC, Dual
 from . import common as H
+from . import torchsup as TS
+from symnp import symtorch as SYT
 from .C03 import embed, mv
 
 TOL = 1e-7
@@ -169,7 +171,34 @@ def replay_kl(p):
     return (not H.close(got, ref, 1e-5)), f'Knill-Laflamme inner product backward (K={K}, n={n}) differs from finite differences'
 
 
-REPLAYERS = {'gate': replay_gate, 'sweep': replay_sweep, 'kl': replay_kl}
+def replay_sqrtm(p):
+    """real torch: backward of PSDMatrixSqrtm / the repeated square root against finite differences of the forward value"""
+    import torch
+    import numqi._torch_op as TO
+    n, repeat = p['n'], p['repeat']
+    g = np.random.default_rng(5)
+    for trial in range(6):
+        M = g.normal(size=(n, n)) + 1j * g.normal(size=(n, n))
+        Am = M @ M.conj().T + 0.3 * np.eye(n)
+        Gm = g.normal(size=(n, n)) + 1j * g.normal(size=(n, n))
+        Gm = Gm + Gm.conj().T
+        R, ctx = TO._torch_psd_sqrtm_forward_repeat(torch.tensor(Am), repeat)
+        X = TO._torch_psd_sqrtm_backward_repeat(torch.tensor(Gm), ctx, repeat).numpy()
+        # <G, dR> == <X, dA> for Hermitian directions dA (central differences of the forward)
+        for _ in range(3):
+            dA = g.normal(size=(n, n)) + 1j * g.normal(size=(n, n))
+            dA = dA + dA.conj().T
+            h = 1e-6
+            Rp = TO._torch_psd_sqrtm_forward_repeat(torch.tensor(Am + h * dA), repeat)[0].numpy()
+            Rm = TO._torch_psd_sqrtm_forward_repeat(torch.tensor(Am - h * dA), repeat)[0].numpy()
+            lhs = np.trace(Gm.conj().T @ ((Rp - Rm) / (2 * h))).real
+            rhs = np.trace(X.conj().T @ dA).real
+            if abs(lhs - rhs) > 1e-5 * max(1.0, abs(lhs)):
+                return True, f'PSD matrix root (n={n}, repeat={repeat}): <G,dR> = {lhs:.8g} but <backward(G),dA> = {rhs:.8g}'
+    return False, 'backward agrees with finite differences'
+
+
+REPLAYERS = {'sqrtm': replay_sqrtm, 'gate': replay_gate, 'sweep': replay_sweep, 'kl': replay_kl}
 
 
 # ---------------------------------------------------------------- stand-ins for torch objects
@@ -203,7 +232,7 @@ def run(chk):
            'numqi.sim._torch_utils.CircuitTorchWrapper._setup (concrete: produces ind_gate_to_info)', 'numqi.qec._internal._KnillLaflammeInnerProductTorchOp.forward/backward')
     for k, v in REPLAYERS.items():
         chk.register_replayer(k, v)
-    chk.out_of_claim('PSDMatrixSqrtm / PSDMatrixLogm (eigh inside); the chain from angles to gate matrices (torch autograd); hf_model_wrapper / scipy bridge; all variational model losses; '
+    chk.out_of_claim('PSDMatrixSqrtm on singular matrices (zero eigenvalue branch), PSDMatrixLogm (Pade quadrature + torch.linalg.solve under autograd; its only hand-written derivative is the repeated square root, which is inside); the chain from angles to gate matrices (torch autograd); hf_model_wrapper / scipy bridge; all variational model losses; '
                      'non-unitary gates inside a differentiated circuit (the sweep un-applies gates, so the code itself assumes unitarity); custom gates; the inductive composition of the lemmas is an argument, not a query')
     nmax = 3
     chk.bound(lemmas=f'n<={nmax}, every ordered target tuple of size 1..2 and every disjoint control set of size 1..2; state, cotangent and gate matrix fully symbolic '
@@ -375,4 +404,133 @@ def run(chk):
     chk.notes_from(ctx)
     chk.assume('gradient convention: for upstream cotangent G the gradient of input coordinate z_k is dL(Re z_k) + i dL(Im z_k) with dL = Re sum_j conj(G_j) d out_j (PyTorch), '
                'tangents d out_j from forward-mode dual numbers through the real forward functions')
+    # ---- PSD matrix square root (and the repeated root used by the Pade logarithm): the hand-written backward solves the Sylvester equations
+    #      S X + X S = G.  torch code on symbolic tensors; eigh by contract (lambda > 0, U unitary).  Lemma chain with the Gram matrices explicit:
+    #        (1) R == U diag(s) U^dag, s_i^2 == lambda_i                                                  [identity]
+    #        (2) R X + X R == U (D Q T + T Q D) U^dag  with Q = U^dag U, T = (U^dag G U) o 1/(s_i+s_j)      [identity in U, G, s: no constraint]
+    #        (3) with Q = I:  D T + T D == U^dag G U                                                        [reciprocal facts]
+    #        (4) U (U^dag G U) U^dag == P G P with P = U U^dag ; with P = I this is G                       [identity + substitution]
+    import numqi._torch_op as TO
+    chk.fn('numqi._torch_op._torch_psd_sqrtm_forward_repeat', 'numqi._torch_op._torch_psd_sqrtm_backward_repeat (PSDMatrixSqrtm, _PSDMatrixSqrtmRepeat)')
+    chk.stub('torch.linalg.eigh -> symbolic (lambda, U): lambda > 0; U arbitrary complex (unitarity enters only in the substitution steps (3),(4))')
+
+    def mm(*ms):
+        out = ms[0]
+        for m_ in ms[1:]:
+            out = np.dot(out, m_)
+        return out
+
+    def dag(m_):
+        o = np.empty(m_.shape[::-1], dtype=object)
+        for i in range(m_.shape[0]):
+            for j in range(m_.shape[1]):
+                o[j, i] = S.as_sc(m_[i, j]).conjugate()
+        return o
+
+    def eqm(a_, b_):
+        return [H.eq_sc(x, y) for x, y in zip(a_.reshape(-1), b_.reshape(-1))]
+
+    # repeat >= 2 beyond the sizes the chain reaches: the r-round backward is the (r-1)-round backward (on s^2) of the one-round backward (on s) -
+    # checked on the code itself; the one-round chain holds for every positive s, so the rounds compose
+    for n, repeat in ((2, 2),) if quick else ((2, 2), (2, 3), (3, 2), (3, 3), (4, 2)):
+        chk.configurations += 1
+        tag = f'sc{n}{repeat}_'
+        sv_ = [S.sc_var(tag + f's{j}') for j in range(n)]
+        U = H.cx_array(tag + 'u', (1, n, n))
+        G = H.herm_array(tag + 'g', n)
+        SYT.HANDLERS['any'] = lambda x, *a_, **k: np.any(x)
+        tf = SYT.torch_facade()
+        pre = [(x_ > 0).n for x_ in sv_]
+
+        def body2(G=G, U=U, sv_=sv_, n=n, repeat=repeat):
+            st_ = lambda pw: SYT.tensor(A.sym_array(np.array([x_ ** pw for x_ in sv_], dtype=object).reshape(1, n), np.float64))
+            full = TO._torch_psd_sqrtm_backward_repeat(SYT.tensor(G.copy()), (st_(1), SYT.tensor(U.copy())), repeat)
+            one = TO._torch_psd_sqrtm_backward_repeat(SYT.tensor(G.copy()), (st_(1), SYT.tensor(U.copy())), 1)
+            rest = TO._torch_psd_sqrtm_backward_repeat(one, (st_(2), SYT.tensor(U.copy())), repeat - 1)
+            return full, rest
+        try:
+            paths, st = H.run_paths(body2, pre, extra_globals=TS.torch_globals(tf), feas_timeout_ms=3000, max_paths=8)
+        except S.EngineError as e:
+            chk.engine_error(f'PSD sqrtm composition n={n} repeat={repeat}', e)
+            continue
+        chk.add_path_stats(st)
+        rp = ('sqrtm', {'n': n, 'repeat': repeat})
+        for pi, path in enumerate(paths):
+            if path.status != 'return':
+                chk.add(f'[PSD matrix root, n={n}] {repeat}-round backward raises {type(path.value).__name__}: {path.value}', pre + path.pc + path.facts, ir.FALSE, key='PSD matrix root raises', replay=rp)
+                continue
+            full, rest = path.value
+            chk.add(f'[PSD matrix root, n={n}] backward with repeat={repeat} == backward with repeat={repeat - 1} on s^2 applied to the one-round backward on s (every s > 0, U, G)',
+                    pre + path.pc + path.facts + [c for k_, c in path.side], ir.band_all(H.eq_sc(x, y) for x, y in zip(H.elems(full._sym), H.elems(rest._sym))),
+                    key='PSD matrix root: backward is not the Sylvester solution', replay=rp)
+    for n, repeat in ((2, 1), (2, 2)) if quick else ((2, 1), (2, 2), (3, 1)):
+        chk.configurations += 1
+        tag = f'sq{n}{repeat}_'
+        lam = [S.sc_var(tag + f'l{j}') for j in range(n)]
+        U = H.cx_array(tag + 'u', (1, n, n))
+        G = H.herm_array(tag + 'g', n)
+        Ad = H.herm_array(tag + 'a', n)
+
+        def eigh_h(x, lam=lam, U=U, n=n):
+            return SYT.tensor(A.sym_array(np.array(lam, dtype=object).reshape(1, n), np.float64)), SYT.tensor(U.copy())
+        SYT.HANDLERS['linalg_eigh'] = eigh_h
+        SYT.NOSHADOW.add('linalg_eigh')
+        SYT.HANDLERS['any'] = lambda x, *a_, **k: np.any(x)
+        tf = SYT.torch_facade()
+        pre = [(l_ > 0).n for l_ in lam]
+
+        def body(Ad=Ad, G=G, repeat=repeat):
+            R, ctx = TO._torch_psd_sqrtm_forward_repeat(SYT.tensor(Ad.copy()), repeat)
+            X = TO._torch_psd_sqrtm_backward_repeat(SYT.tensor(G.copy()), ctx, repeat)
+            return R, X, ctx[0]
+        try:
+            paths, st = H.run_paths(body, pre, extra_globals=TS.torch_globals(tf), feas_timeout_ms=3000, max_paths=8)
+        except S.EngineError as e:
+            chk.engine_error(f'PSD sqrtm n={n} repeat={repeat}', e)
+            continue
+        chk.add_path_stats(st)
+        rp = ('sqrtm', {'n': n, 'repeat': repeat})
+        key = 'PSD matrix root: backward is not the Sylvester solution'
+        cfg = f'[PSD matrix root A^(1/2^{repeat}), n={n}]'
+        for pi, path in enumerate(paths):
+            if path.status != 'return':
+                chk.add(f'{cfg} raises {type(path.value).__name__}: {path.value}', pre + path.pc + path.facts, ir.FALSE, key='PSD matrix root raises', replay=rp)
+                continue
+            R, X, sv = path.value
+            with path.resume():
+                base = pre + path.pc + path.facts + [c for k_, c in path.side]
+                Rp, Xp, Up, Gp = A.plain(R._sym).reshape(n, n), A.plain(X._sym).reshape(n, n), A.plain(U)[0], A.plain(G)
+                s_ = [S.as_sc(e) for e in A.plain(sv._sym).reshape(-1)]
+                Ud = dag(Up)
+                D = lambda k_: np.array([[(s_[i] ** (2 ** k_) if i == j else SC(ir.ZERO)) for j in range(n)] for i in range(n)], dtype=object)      # diag(s^(2^k))
+                # (1)
+                pw = 2 ** repeat
+                chk.add(f'{cfg} (1): forward value == U diag(s) U^dag with s_i^{pw} == lambda_i', base, ir.band_all(eqm(Rp, mm(Up, D(0), Ud)) + [H.eq_sc(s_[i] ** pw, lam[i]) for i in range(n)]), key=key, replay=rp)
+                Q = mm(Ud, Up)
+                P = mm(Up, Ud)
+                # the backward applies L_k^{-1} for k = 0 .. repeat-1 (L_k(Y) = S_k Y + Y S_k, S_k = U diag(s^(2^k)) U^dag); undo them in reverse order
+                cur = Xp
+                Tchain = []
+                T = mm(Ud, Gp, Up)
+                for k_ in range(repeat):
+                    rec = np.array([[S.as_sc(1) / (s_[i] ** (2 ** k_) + s_[j] ** (2 ** k_)) for j in range(n)] for i in range(n)], dtype=object)
+                    Tk = np.array([[S.as_sc(T[i, j]) * rec[i, j] for j in range(n)] for i in range(n)], dtype=object)
+                    Tchain.append((T, Tk, k_))
+                    T = mm(Q, Tk, Q) if k_ < repeat - 1 else Tk          # the next round conjugates U Tk U^dag again: U^dag (U Tk U^dag) U = Q Tk Q
+                # (2) generic re-association identity (fresh matrix Tv and diagonal dv): (U dv U^dag)(U Tv U^dag) + (U Tv U^dag)(U dv U^dag) == U (dv Q Tv + Tv Q dv) U^dag
+                Tv = A.plain(H.cx_array(tag + 'tv', (n, n)))
+                dv = [S.sc_var(tag + f'dv{i}') for i in range(n)]
+                Dv = np.array([[(dv[i] if i == j else SC(ir.ZERO)) for j in range(n)] for i in range(n)], dtype=object)
+                Sv, Xv = mm(Up, Dv, Ud), mm(Up, Tv, Ud)
+                chk.add(f'{cfg} (2): S Y + Y S == U (D Q T + T Q D) U^dag for S = U D U^dag, Y = U T U^dag, every U, T, D (identity)', [], ir.band_all(eqm(mm(Sv, Xv) + mm(Xv, Sv), mm(Up, mm(Dv, Q, Tv) + mm(Tv, Q, Dv), Ud))),
+                        key=key, replay=rp)
+                # (3) per round, with Q = I: D_k T_k + T_k D_k == T_in,k   (reciprocal facts);  T_in,k+1 = Q T_k Q = T_k
+                for (Tin, Tk, k_) in Tchain:
+                    chk.add(f'{cfg} (3) round {k_}: D_k T_k + T_k D_k == T_in (entrywise (s_i+s_j) / (s_i+s_j))', base, ir.band_all(eqm(mm(D(k_), Tk) + mm(Tk, D(k_)), Tin)), key=key, replay=rp)
+                # code-level link for all rounds at once: X == U T_last U^dag with the chain built from Q explicitly (identity for every U)
+                chk.add(f'{cfg} (2b): backward value == U T_last U^dag, T built round by round with Q = U^dag U explicit (identity)', base, ir.band_all(eqm(Xp, mm(Up, Tchain[-1][1], Ud))), key=key, replay=rp)
+                # (4) U (U^dag G U) U^dag == P G P
+                chk.add(f'{cfg} (4): U (U^dag G U) U^dag == (U U^dag) G (U U^dag) (identity); with U U^dag = I this is G', base, ir.band_all(eqm(mm(Up, mm(Ud, Gp, Up), Ud), mm(P, Gp, P))), key=key, replay=rp)
+                chk.add(f'{cfg} reach', base, ir.TRUE, kind='reach')
+        SYT.HANDLERS.pop('linalg_eigh', None)
     chk.solve(timeout_s=90 if quick else 600)
